@@ -236,6 +236,9 @@ func rangeLimitIterator(i Iterator, r *Range, l *Limit, reverse bool) *RangeLimi
 				it.Iterator.SeekToFirst()
 				if it.Iterator.Valid() && bytes.Compare(it.Iterator.RefKey(), r.Max) == 1 {
 					dbLog.Infof("iterator seek to last key %v should not great than seek to max %v", it.Iterator.RefKey(), r.Max)
+					// all keys are greater than the max, so nothing is in the range:
+					// move before the first key to make the iterator invalid
+					it.Iterator.Prev()
 				}
 			}
 			if r.Type&common.RangeROpen > 0 {
